@@ -68,6 +68,12 @@ def deletion_loop(f, prog=None, binding=None, depth=0):
             if not whole:
                 return False, 'erase-remove does not cover [begin, end) of the string', ch
             return True, 'erase-remove idiom', ch
+    # a deletion driven by a character class (isspace, isblank, ispunct, ...) removes more than one character value
+    CLASSES = ('isspace', 'isblank', 'ispunct', 'isalpha', 'isalnum', 'isdigit', 'iscntrl', 'isgraph', 'isprint', 'isupper', 'islower')
+    cls_calls = [c for c in calls(f.body) if c.get('n') in CLASSES]
+    mutates = [c for c in calls(f.body) if c.get('n') in ('erase', 'replace', 'remove_if', 'remove_copy_if') ]
+    if cls_calls and mutates:
+        return False, 'characters are deleted by the class test %s(): every character of that class is removed, not one character value' % cls_calls[0]['n'], '<%s>' % cls_calls[0]['n']
     # idiom (a): find / erase loop
     if len(st) >= 2 and st[0].get('k') == 'decl' and len(st[0]['vars']) == 1 and st[1].get('k') in ('while',):
         v = st[0]['vars'][0]
@@ -150,6 +156,7 @@ def run(ctx, prog):
             return terms.num(0)
         return None
     E.call_hook = hook
+    E.unroll_paths = True
     outs = [o for o in E.run(fm) if o.kind != 'exit']
     pn = fm.params[0]['n']
     probs = []
@@ -167,7 +174,10 @@ def run(ctx, prog):
         while v is not None and v[0] == 'call' and v[1] in helpers and len(v[2]) == 1:
             applied.append(v[1])
             v = v[2][0]
-        if v not in (('sym', pn + '*'), ('deref', ('sym', pn))):
+        hidden = [e for e in o.events if e[0] in ('loop', 'branch') and any(x[0] in ('write-through', 'write', 'store') for k_, c_, sub in e[1][1] for x in sub)]
+        if hidden:
+            probs.append('the string is also modified inside a loop / helper at %s that is not one of the three normalisation steps' % hidden[0][2])
+        elif v not in (('sym', pn + '*'), ('deref', ('sym', pn))):
             probs.append('the stored string derives from `%s`, not from the input' % (terms.fmt(v)[:50] if v else None))
         elif set(applied) != set(helpers):
             probs.append('the stored string is %s of the input: %s not applied' % (' of '.join(applied) or 'a plain copy', sorted(set(helpers) - set(applied))))
@@ -255,7 +265,7 @@ def run(ctx, prog):
                sample='%d returning paths install under the unmodified handle parameter' % info['returning'])
         ctx.ob('C13.N5', 'name-normalised|' + sc, verdict(res['name-match']), im.where, '; '.join(res['name-match'][:2]) or 'not decided: ' + '; '.join(res['complete'][:2]),
                sample='each installed candidate is the one whose name equals masa_map(name parameter)')
-        unmatched = res['one-install'] + res['fatal-registers']
+        unmatched = res['one-install'] + res['fatal-registers'] + sorted(set(res['raw-name']))
         ctx.ob('C13.N5', 'no-match-is-fatal|' + sc, verdict(unmatched), im.where, '; '.join(unmatched[:2]) or 'not decided: ' + '; '.join(res['complete'][:2]),
                sample='the only paths that install nothing end in masa_exit; no terminating path installs anything')
         sm = [f for f in prog.functions if f.n == 'select_mms' and 'MasterMS<%s>' % scalar in f.get('rec', '')]
